@@ -178,6 +178,18 @@ func PChannel(hostport string, verdict int) CPkt {
 	return CPkt{Kind: KChannelCreate, HostKey: hostport, Verdict: verdict, Bytes: codec.ChannelCreateHost(h, port)}
 }
 
+// PChannelAlts is a channel create that also lists alternate names for the resource; only
+// the resource name itself is what the client asks for (and what policy is applied to).
+func PChannelAlts(hostport string, verdict int, alts []string) CPkt {
+	h, port := splitHostPort(hostport)
+	var names []string
+	for _, a := range alts {
+		n, _ := splitHostPort(a)
+		names = append(names, n)
+	}
+	return CPkt{Kind: KChannelCreate, HostKey: hostport, Verdict: verdict, Alts: true, Bytes: codec.ChannelCreateAlts(h, names, port)}
+}
+
 func PData(payload []byte) CPkt {
 	return CPkt{Kind: KData, Payload: payload, Bytes: codec.Data(payload, -1)}
 }
